@@ -19,7 +19,7 @@ def run(rep, tier):
         "entries compared with 1e-12 relative to the largest entry of the row",
         "the give form is not transcribed: it is bound to the take-form table by probing",
     ]
-    tabs = sc.tables(rep, tier, "c03", "a")
+    tabs = sc.tables(rep, tier, "c03", "ac")
     sc.conformance(rep, tier, tabs, "residual", 160, "residual", threads=(1, 3) if tier == "thorough" else (1,))
     try:
         import realgeom
